@@ -61,8 +61,9 @@ def impl(case):
         reset_pyrates()
 
 def impl_conn(case):
-    """Connectivity(weights, delays, spread) between a source population (x' = k, first ns nodes of the case) and a target
-    population (x' = r_in); the case lists the expansion: edge (s, ns+t) carries W[t][s]."""
+    """one source population p (x' = k_j; first ns nodes) and 1-3 target populations q0, q1, q2 (integrators), one
+    Connectivity(weights, delays, spread) per target population: case['pops'] = [ns, n0, n1, n2], case['conns'] =
+    [{tgt, W (rows), d, s}]; the case's `edges` list is the expansion, one edge per matrix entry with its connection's (d, s)."""
     import warnings
     warnings.filterwarnings("ignore")
     import numpy as np
@@ -71,27 +72,29 @@ def impl_conn(case):
     try:
         from pyrates import CircuitTemplate, NodeTemplate, OperatorTemplate
         from pyrates.frontend.template.population import PopulationTemplate, Connectivity
-        nodes = case["nodes"]; ns = sum(1 for n in nodes if n["kind"] == "s"); nt = len(nodes) - ns
+        nodes = case["nodes"]; ns, *nts = case["pops"]
         sop = OperatorTemplate("sa", equations=["x' = k"], variables={"x": "output(0.0)", "k": 1.0})
         # (a population of >= 2 units with the bare right-hand side `r_in` does not compile: shape check on no_op(r_in))
         top = OperatorTemplate("ta", equations=["x' = r_in + m"], variables={"x": "output(0.0)", "r_in": "input(0.0)", "m": 0.0})
-        P = PopulationTemplate("p", NodeTemplate("SN", operators=[sop]), ns,
-                               params={"sa/k": [float(Fr(n["k"])) for n in nodes[:ns]], "sa/x": [float(Fr(n["x0"])) for n in nodes[:ns]]})
-        Q = PopulationTemplate("q", NodeTemplate("TN", operators=[top]), nt, params={"ta/x": [float(Fr(n["x0"])) for n in nodes[ns:]]})
-        W = np.zeros((nt, ns))
-        for s_, t_, w, ds in case["edges"]:
-            W[t_ - ns, s_] = float(Fr(w))
-        d, sp = case["edges"][0][3]
-        conn = Connectivity(source="p/sa/x", target="q/ta/r_in", weights=W, delays=float(Fr(d)), spread=float(Fr(sp)))
-        c = CircuitTemplate("c", populations={"p": P, "q": Q}, connections=[conn])
+        tnode = NodeTemplate("TN", operators=[top])
+        pops = {"p": PopulationTemplate("p", NodeTemplate("SN", operators=[sop]), ns,
+                                        params={"sa/k": [float(Fr(n["k"])) for n in nodes[:ns]], "sa/x": [float(Fr(n["x0"])) for n in nodes[:ns]]})}
+        outs = {"p": "p/sa/x"}; sizes = [("p", ns)]; off = ns
+        for i, nt in enumerate(nts):
+            if nt:
+                pops[f"q{i}"] = PopulationTemplate(f"q{i}", tnode, nt, params={"ta/x": [float(Fr(n["x0"])) for n in nodes[off:off + nt]]})
+                outs[f"q{i}"] = f"q{i}/ta/x"; sizes.append((f"q{i}", nt)); off += nt
+        conns = [Connectivity(source="p/sa/x", target=f"q{cn['tgt']}/ta/r_in", weights=np.array([[float(Fr(w)) for w in row] for row in cn["W"]]),
+                              delays=float(Fr(cn["d"])), spread=float(Fr(cn["s"]))) for cn in case["conns"]]
+        c = CircuitTemplate("c", populations=pops, connections=conns)
         dt = float(Fr(case["dt"]))
         try:
-            r = c.run(simulation_time=case["steps"] * dt, step_size=dt, solver="euler", outputs={"p": "p/sa/x", "q": "q/ta/x"},
+            r = c.run(simulation_time=case["steps"] * dt, step_size=dt, solver="euler", outputs=outs,
                       float_precision="float64", backend="default", clear=True, verbose=False)
         except (IndexError, ValueError, KeyError, TypeError, AttributeError, NameError) as e:
             return {"raised": type(e).__name__, "msg": str(e)[:160]}
-        pv = np.asarray(r["p"].values).reshape(case["steps"], ns); qv = np.asarray(r["q"].values).reshape(case["steps"], nt)
-        return [[frac(v) for v in pv[j]] + [frac(v) for v in qv[j]] for j in range(case["steps"])]
+        cols = [np.asarray(r[k].values).reshape(case["steps"], n) for k, n in sizes]
+        return [[frac(v) for blk in cols for v in blk[j]] for j in range(case["steps"])]
     finally:
         reset_pyrates()
 
@@ -235,18 +238,32 @@ def gen_case(rng, kind="valid"):
     raise RuntimeError("generator could not produce an exactly representable case")
 
 def gen_conn(rng):
-    """population circuit as its expansion: ns source units, nt target units, a full weight matrix, one (delay, spread);
-    pairs include those where truncation and rounding of (d/s)^2 differ"""
-    for _ in range(200):
+    """population circuit as its expansion: one source population projecting through 1-3 Connectivity(weights, delays, spread)
+    objects, all leaving the SAME source variable, into different target populations. The (d, s) pairs of the connections share
+    the delay and differ in the spread, share both, or differ in both (each connection must keep its own cascade: order
+    round((d/s)^2), rate n/d); pairs include those where truncation and rounding of (d/s)^2 differ"""
+    for _ in range(400):
         dt = Fr(1, rng.choice([4, 8]))
-        ns, nt = rng.randint(1, 3), rng.randint(1, 3)
+        ns = rng.randint(1, 3); ncon = rng.choice([1, 2, 2, 3])
+        nts = [rng.randint(1 if ns > 1 else 2, 3) if i < ncon else 0 for i in range(3)]
         nodes = [dict(kind="s", cls=0, k=str(rng.randint(1, 3)), x0=str(Fr(rng.randint(1, 6), 2))) for _ in range(ns)]
-        nodes += [dict(kind="t", cls=0, k="0", x0=str(Fr(rng.randint(-4, 4), 2))) for _ in range(nt)]
-        d, sp, n = rng.choice(pairs(dt))
-        edges = [[s, ns + t, str(Fr(rng.choice([-3, -2, -1, 0, 1, 2, 3]), 2)), [str(d), str(sp)]] for t in range(nt) for s in range(ns)]
-        if all(Fr(e[2]) == 0 for e in edges):
-            continue
-        case = dict(dt=str(dt), steps=rng.randint(8, 12), vectorize=True, dde=0, nodes=nodes, edges=edges, connectivity=True)
+        nodes += [dict(kind="t", cls=0, k="0", x0=str(Fr(rng.randint(-4, 4), 2))) for _ in range(sum(nts))]
+        pp = pairs(dt)
+        first = rng.choice(pp); chosen = [first]
+        for _ in range(ncon - 1):
+            mode = rng.choice(["same_d", "same_d", "same", "other"])
+            cand = [q for q in pp if q[0] == first[0] and q[1] != first[1]] if mode == "same_d" else [first] if mode == "same" else pp
+            chosen.append(rng.choice(cand or pp))
+        conns, edges, off = [], [], ns
+        for i, (d, sp, n) in enumerate(chosen):
+            W = [[str(Fr(rng.choice([-3, -2, -1, 0, 1, 2, 3]), 2)) for _ in range(ns)] for _ in range(nts[i])]
+            if all(Fr(w) == 0 for row in W for w in row):
+                W[0][0] = "1"
+            conns.append(dict(tgt=i, W=W, d=str(d), s=str(sp)))
+            edges += [[s_, off + t, W[t][s_], [str(d), str(sp)]] for t in range(nts[i]) for s_ in range(ns)]
+            off += nts[i]
+        case = dict(dt=str(dt), steps=rng.randint(8, 12), vectorize=True, dde=0, nodes=nodes, edges=edges, connectivity=True,
+                    pops=[ns] + nts, conns=conns)
         if exact_ok(case):
             return case
     raise RuntimeError("generator could not produce an exactly representable Connectivity case")
@@ -356,7 +373,7 @@ def check(ctx):
         cases += [gen_case(ctx.rng, "chains") for _ in range(n_valid // 5)]
         for kind in ("plain", "dde", "kernel", "shared", "perm"):
             cases += [gen_case(ctx.rng, kind) for _ in range(n_viol)]
-        cases += [gen_conn(ctx.rng) for _ in range(n_valid // 4)]
+        cases += [gen_conn(ctx.rng) for _ in range(n_valid * 2 // 5)]
     is_conn = [bool(c.get("connectivity")) for c in cases]
     ei = [i for i in range(len(cases)) if not is_conn[i]]; ci = [i for i in range(len(cases)) if is_conn[i]]
     outs = [None] * len(cases)
@@ -393,7 +410,8 @@ def check(ctx):
                    show=lambda c: dict(implementation_output=fails(ctx, c, "show")[1], model_output=model_outputs(ctx, c, "show")))
     nt = {canon(c) for i, c in enumerate(cases) if nontrivial(c) and i in in_guard}
     orders = sorted({rhe((Fr(e[3][0]) / Fr(e[3][1])) ** 2) for c in cases for e in c["edges"] if e[3] != "nokey" and len(e[3]) == 2})
-    hist = dict(connectivity=len(ci), vectorized=sum(1 for c in cases if c["vectorize"]), dde_approx=sorted({c.get("dde", 0) for c in cases}),
+    hist = dict(connectivity=len(ci), connectivity_multi=sum(1 for i in ci if len(cases[i]["conns"]) > 1),
+                connectivity_same_delay_other_spread=sum(1 for i in ci if any(a["d"] == b["d"] and a["s"] != b["s"] for a in cases[i]["conns"] for b in cases[i]["conns"])), vectorized=sum(1 for c in cases if c["vectorize"]), dde_approx=sorted({c.get("dde", 0) for c in cases}),
                 in_guard=len(in_guard), guard_violating={g: len(gfalse[g]) for g in GUARDS}, orders=orders,
                 pairs=len({tuple(e[3]) for c in cases for e in c["edges"] if e[3] != "nokey" and len(e[3]) == 2}),
                 same_order_different_pairs=sum(1 for c in cases if len({tuple(e[3]) for e in c["edges"] if e[3] != "nokey" and len(e[3]) == 2}) >
